@@ -65,6 +65,8 @@ pub struct Scenario {
 }
 
 const PROBES: &[&str] = &[
+    "stream_hint_vague_upper_bound_only",
+    "stream_hint_unknown",
     "clipped_fill_contiguous_slow_path",
     "clipped_fill_contiguous_fast_path",
     "initial_skip_gt_0",
@@ -138,10 +140,47 @@ impl Visitor for OpVisitor<'_> {
     }
 }
 
+/// A stream whose `size_hint()` is truthful but vague, like `filter`, `scan`, `from_fn` or a
+/// decoder of compressed data give: mode 1 = (0, upper bound of the inner stream), mode 2 =
+/// (0, None), anything else = the inner stream's own hint. Only `next` is forwarded.
+struct Vague<I> {
+    it: I,
+    mode: u8,
+}
+
+impl<I: Iterator> Iterator for Vague<I> {
+    type Item = I::Item;
+    fn next(&mut self) -> Option<I::Item> {
+        self.it.next()
+    }
+    fn size_hint(&self) -> (usize, Option<usize>) {
+        match self.mode {
+            1 => (0, self.it.size_hint().1),
+            2 => (0, None),
+            _ => self.it.size_hint(),
+        }
+    }
+}
+
+/// Which hint the stream of an operation announces: derived from the operation (no tape draw).
+fn hint_mode(op: &TOp) -> u8 {
+    let k = match op {
+        TOp::DrawIter(px) => px.len() as u64 + px.first().map_or(0, |p| (p.0 as i64 + 3 * p.1 as i64) as u64),
+        TOp::FillContiguous { area, colours, .. } => colours.len() as u64 + (area[0] as i64 + 3 * area[1] as i64 + 5 * area[2] as i64) as u64,
+        _ => 0,
+    };
+    // half of the streams keep their exact hint
+    [0, 1, 0, 2][(k % 4) as usize]
+}
+
 fn issue_one<C: SimColor>(top: &mut DynTarget<'_, C>, op: &TOp) -> Result<(), SimError> {
     {
+        let mode = hint_mode(op);
         match op {
-            TOp::DrawIter(px) => top.draw_iter(px.iter().map(|(x, y, c)| Pixel(Point::new(*x, *y), C::from_u32(*c)))),
+            TOp::DrawIter(px) => top.draw_iter(Vague {
+                it: px.iter().map(|(x, y, c)| Pixel(Point::new(*x, *y), C::from_u32(*c))),
+                mode,
+            }),
             TOp::FillContiguous { area, colours, repeat } => {
                 let a = crate::erased::rect_of(area);
                 let it = colours.iter().map(|c| C::from_u32(*c));
@@ -149,11 +188,17 @@ fn issue_one<C: SimColor>(top: &mut DynTarget<'_, C>, op: &TOp) -> Result<(), Si
                     Some(r) => {
                         // an endless stream: only consumers that stop by themselves are legal for it
                         crate::erased::set_colour_fold(false);
-                        let res = top.fill_contiguous(&a, it.chain(core::iter::repeat(C::from_u32(*r))));
+                        let res = top.fill_contiguous(
+                            &a,
+                            Vague {
+                                it: it.chain(core::iter::repeat(C::from_u32(*r))),
+                                mode,
+                            },
+                        );
                         crate::erased::set_colour_fold(true);
                         res
                     }
-                    None => top.fill_contiguous(&a, it),
+                    None => top.fill_contiguous(&a, Vague { it, mode }),
                 }
             }
             TOp::FillSolid { area, colour } => top.fill_solid(&crate::erased::rect_of(area), C::from_u32(*colour)),
@@ -596,6 +641,11 @@ fn op_probes(out: &mut RunOut, m: &StackModel, stack: &[Ad], op: &TOp, issued: &
             }
         }
         TOp::FillContiguous { area, colours, repeat } => {
+            match hint_mode(op) {
+                1 => out.probes |= probe("stream_hint_vague_upper_bound_only"),
+                2 => out.probes |= probe("stream_hint_unknown"),
+                _ => {}
+            }
             let a = R::xywh(area[0] as i64, area[1] as i64, area[2] as i64, area[3] as i64);
             let n = a.area() as usize;
             if repeat.is_some() {
